@@ -29,7 +29,9 @@ THEOREMS = {
     "C02": (["NaunetProps.C02"], ["Naunet.C02.jac_eq_pderiv", "Naunet.C02.jac_omitted_is_zero",
                                   "Naunet.C02.modJac_eq_pderiv", "Naunet.pderiv_prod_yvar",
                                   "Naunet.pderiv_rhsFrom", "Naunet.pderiv_thermRhsFrom"]),
-    "C03": (["NaunetProps.C03"], ["Naunet.C03.csr_wellformed", "Naunet.C03.csr_cols_sorted_in_range",
+    "C03": (["NaunetProps.C03", "NaunetProps.C03b"], ["Naunet.SolverObj.init_fits", "Naunet.SolverObj.reset_fits",
+                                  "Naunet.SolverObj.history_fits",
+                                  "Naunet.C03.csr_wellformed", "Naunet.C03.csr_cols_sorted_in_range",
                                   "Naunet.C03.csr_triples_iff", "Naunet.C03.csrRows_csrOf",
                                   "Naunet.C03.decodeFlat_encode", "Naunet.C03.pattern_iff",
                                   "Naunet.C03.neqns_pos", "Naunet.C03.subscripts_in_bounds"]),
@@ -526,6 +528,7 @@ def run(pid: str, argv):
     all_b = list(BACKENDS)
     requests, pending = [], []
     ov_requests, ov_pending = [], []
+    compiled_jobs = []
     for n in range(ncases):
         case = gen_case(chk.rng, tier, pid, n)
         ok_cool = allowed_cooling(case)
@@ -551,6 +554,8 @@ def run(pid: str, argv):
         except Exception as e:
             chk.corr_break("stage-input", case_summary(case), None, f"{type(e).__name__}: {e}")
             req = None
+        if pid == "C03" and case["reacs"] and len(compiled_jobs) < {"quick": 4, "thorough": 24}[tier]:
+            compiled_jobs += [(case, b, rds[b].path) for b in ("dense", "sparse") if b in rds]
         for b, rd in rds.items():
             chk.count(case_sig(case, b), nontrivial=bool(case["reacs"]))
             try:
@@ -577,6 +582,8 @@ def run(pid: str, argv):
                                     "idxs": [r.idxfromfile for r in net.reactions],
                                     "stmts": [[c, r] for _, r, c in base]})
                 ov_pending.append((case, b, got))
+    if compiled_jobs:
+        compiled_matrix_check(chk, compiled_jobs)
     # ---- model correspondence
     if getattr(chk, "lean_ok", False) and requests:
         try:
@@ -757,6 +764,64 @@ def witness_point(diff: Poly, rng):
     return None
 
 
+def bindings_check(chk, case, rd, texts_fex, texts_jac):
+    """The Jacobian is the derivative of the right-hand side only if the scalars both functions compute before their
+    equations (mu, gamma, npar, the derived quantities …) have the same values in both.  The two definition lists are compared
+    as text first; where they differ they are executed on sampled user data (every sign pattern of the parameters, the
+    helper functions as fixed opaque values) and a difference in the final value of a scalar the equations use is reported
+    with that user data."""
+    import itertools
+    from . import ceval
+    try:
+        bf, bj = rd.local_bindings("fex"), rd.local_bindings("jac")
+    except cparse.CParseError:
+        return
+    chk.count("c02.bindings.compared")
+    ws = lambda t: "".join(t.split())
+    norm = lambda bs: [(tuple(ws(g) for g, _ in gs), n, ws(r)) for gs, n, r in bs]
+    used = lambda texts, n: any(re.search(r"(?<![\w.>])" + re.escape(n) + r"\b(?!\s*[\[(])", t) for t in texts)
+    names_f = {n for _, n, _ in bf}
+    names_j = {n for _, n, _ in bj}
+    shared = sorted(n for n in names_f & names_j if used(texts_fex, n) and used(texts_jac, n))
+    of = [x for x in norm(bf) if x[1] in names_f & names_j]
+    oj = [x for x in norm(bj) if x[1] in names_f & names_j]
+    if of == oj or not shared:
+        return
+    chk.count("c02.bindings.text-differs")
+    params = sorted({m for _, _, r in bf + bj for m in re.findall(r"\bu_?data->\w+", r)})
+
+    def run(bs, env):
+        env = dict(env)
+        taken = {}
+        for gs, n, r in bs:
+            if n in ("y", "ydot", "u_data", "udata"):
+                continue
+            try:
+                for g, bid in gs:
+                    if bid not in taken:
+                        taken[bid] = bool(ceval.ev(cparse.parse_expr(g), env))
+                if all(taken[bid] for _, bid in gs):
+                    env[n] = ceval.ev(cparse.parse_expr(r), env)
+            except (cparse.CParseError, KeyError, ValueError, ZeroDivisionError, TypeError, OverflowError):
+                env.pop(n, None)
+        return env
+
+    opaque = {f: (lambda *a, _v=1.25 + 0.5 * k: _v) for k, f in enumerate(("GetMu", "GetGamma", "GetHNuclei", "GetElementAbund"))}
+    for signs in itertools.islice(itertools.product((-1.0, 2.5, 0.0), repeat=len(params)), 2000):
+        env = dict(zip(params, signs))
+        env.update(opaque)
+        env["y"] = 0.0
+        ef, ej = run(bf, env), run(bj, env)
+        for n in shared:
+            if n in ef and n in ej and ef[n] != ej[n]:
+                chk.violation({"kind": "bindings-differ", "backend": rd.backend, "name": n},
+                              f"`{n}` is used by both the right-hand side and the Jacobian but the two functions compute it "
+                              f"differently: with user data {dict(zip(params, signs))} Fex uses {ef[n]} and Jac uses {ej[n]}, so the "
+                              f"Jacobian is the derivative of a different function", input=case_summary(case),
+                              fex_bindings=[x for x in of if x[1] == n], jac_bindings=[x for x in oj if x[1] == n])
+                return
+
+
 def oracle_c02(chk, case, net, rd, rds):
     batch_check(chk, case, rd, ("jac-y", "Jac"))
     summ = case_summary(case)
@@ -768,6 +833,7 @@ def oracle_c02(chk, case, net, rd, rds):
     inv = {}
     for name, slot in rd.idx.items():
         inv.setdefault(slot, name)
+    bindings_check(chk, case, rd, list(rd.fex().values()), list(ents.values()))
     ep = {rc: poly_of_text(t) for rc, t in ents.items()}
     for i in range(rd.neqns):
         f = fx.get(i, Poly())
@@ -781,6 +847,41 @@ def oracle_c02(chk, case, net, rd, rds):
                               f"Jacobian entry ({i},{j}) [{inv.get(i)}, {inv.get(j)}] is not d(ydot)/dy", input=summ,
                               expected=want.canon(), observed=got.canon() if (i, j) in ep else "omitted", point=pt)
                 return
+
+
+def compiled_matrix_check(chk, jobs):
+    """The rendered cvode project is compiled (AddressSanitizer on) against the stand-in SUNDIALS, whose integrator calls the
+    registered Jacobian function on the registered matrix as CVODE does, refuses an accessor of the wrong matrix kind, and
+    validates the CSR structure Jac() leaves behind.  The driver runs Init -> Solve and Init -> Reset -> Solve."""
+    import subprocess
+    from concurrent.futures import ThreadPoolExecutor
+    from . import cbuild
+    from .common import ROOT
+
+    def one(job):
+        case, b, path = job
+        exe = Path(path) / "c03_matrix"
+        ok, err = cbuild.build(path, ROOT / "shim" / "c19_driver.cpp", exe, b, sanitize=True)
+        if not ok:
+            return job, "build", err
+        lines = "".join(f"1.0 1.0 500 {rmx} 2 0 1.0 0 1.0 2 1 1\n" for rmx in (-1, 500, 3))
+        r = subprocess.run([str(exe)], input=lines, capture_output=True, text=True, cwd=path, timeout=600,
+                           env={**os.environ, "ASAN_OPTIONS": "detect_leaks=0"})
+        if r.returncode != 0 or len(r.stdout.strip().split("\n")) != 3:
+            return job, "run", f"rc={r.returncode} " + r.stderr[-1500:]
+        return job, None, None
+
+    with ThreadPoolExecutor(8) as ex:
+        for (case, b, path), stage, err in ex.map(one, jobs):
+            chk.hist[f"compiled-matrix:{b}"] += 1
+            if stage == "build":
+                chk.violation({"kind": "does-not-compile", "backend": b}, f"rendered {b} project does not compile against the "
+                              f"stand-in SUNDIALS", input=case_summary(case), error=err[-1500:])
+            elif stage == "run":
+                chk.violation({"kind": "compiled-matrix-fill", "backend": b},
+                              f"running Init/Reset/Solve of the compiled {b} project: the Jacobian function was applied to a matrix it "
+                              f"does not fit, or left it malformed, or a subscript left its array", input=case_summary(case),
+                              sequence="Init -> Solve; Init -> Reset(mxsteps=500) -> Solve; Init -> Reset(mxsteps=3) -> Solve", error=err)
 
 
 def oracle_c03(chk, case, net, rd, rds):
